@@ -224,6 +224,11 @@ PROPS["C10"] = {
 NOT_APPLICABLE = {}
 
 MANIFEST_TEXT = {
+    "C10": {
+        "text": "Lean theorems: every read request the MP4 sanitizer program can issue, on any input, is for at most max(max_metadata_size, 1024) bytes, and a declared payload above the limit fails with InvalidInput before any I/O (C10_request_bound, C10_limit_before_alloc); after the header of any box other than ftyp/moov the iteration contains no read at all - only position/length queries and one skip (C10_media_not_read, a structural fact about the program); the outcome of any program on the ideal cursor depends only on the stream length and the bytes in the ranges it reads (C10_noninterference); through BufReader(cap), for every underlying reader, program and input, bytes delivered <= bytes returned by completed reads + cap x completed skips + cap at every point of the run (C10_physical_reads, an invariant proved per operation and lifted over I/O programs); the planned padding never exceeds the metadata, so the result is at most twice the re-encoded boxes (C10_pad_bounded). Correspondence and measurement on the real crates: metering Read+Skip and counting allocator over sparse multi-GiB layouts and adversarial size fields; exact agreement of read ranges with the model; webpsan peak heap against a constant for declared images up to 16384x16384 and chunks up to 2^32-30 bytes.",
+        "note": "Partial: peak heap and byte counts are runtime facts, measured (not proved) on the real code against the stated bounds; the link 'read ranges = headers + ftyp + moov payloads' is checked per case against an independent box walker; webpsan's constant-memory claim is measured only. The check found F6 (padding of up to 4 GiB regardless of the limit), repaired in /repo (26a84ae). Trusted: see evidence.",
+        "technique": "Lean 4 proof (structural read-freedom and request bounds of the sanitizer program, accounting invariant through BufReader, generic non-interference) + metered / heap-counted differential runs on sparse streams",
+    },
     "C12": {
         "text": "Lean theorems: C12_native - for every native AsyncSkip reader, EVERY schedule of Pendings, every BufReader capacity and configuration, the sanitizer over the suspended reader returns the synchronous result (each awaited operation, polled until ready, returns the synchronous operation's value and state: simulation lifted through BufReader and then through every I/O program). SeekSkipAdapter over AsyncSeek: poll_skip (both branches) and poll_stream_position are restartable under every schedule (the cursor advances exactly once); poll_stream_len returns the length under every schedule and preserves the position unless its restoring seek is suspended (C12_seek_stream_len_partial), and C12_seek_partial lifts this to the whole sanitizer: async = sync unless a restoring seek was suspended. C12_seek_stream_len_witness proves the defect (F5). Correspondence: real sanitize_async under exhaustive <= 2-suspension schedules on three readers; the model reproduces every async result, including the defective ones.",
         "note": "KNOWN FINDING F5: SeekSkipAdapter::poll_stream_len loses the stream position when its third seek is suspended; sanitize_async then differs from the sync call on until-EOF boxes. Recorded in known_findings.json (not repaired: needs state in a public tuple struct or a trait change). Trusted: see evidence.",
